@@ -29,6 +29,26 @@ theorem filterIL_ref (S : Nat → Bool) : ∀ ts : List T, filterIL refFilter S 
   | t :: ts => by simp [filterIL, filterL, filterI_ref S t, filterIL_ref S ts]
 end
 
+/- the same for ANY case list that decides the five kinds of node as `filterIds` needs it: the case of a test case is kept or
+replaced by a fresh empty suite, every suite has its children filtered (by its own method or in place), and the object itself is
+returned at the end.  In particular the order of cases whose tests exclude each other does not matter. -/
+mutual
+theorem filterI_sem (s : FilterSrc) (S : Nat → Bool) (hfin : s.finalReturnsSame = true)
+    (hcase : ∀ id, chooseAct s.cases (.case id) = some (.keepIfIdIn true))
+    (hsuite : ∀ k cs, chooseAct s.cases (.suite k cs) = some .delegate ∨ chooseAct s.cases (.suite k cs) = some .filterChildrenInPlace) :
+    ∀ t : T, filterI s S t = filterIds S t
+  | .case id => by
+      by_cases h : S id <;> simp [filterI, filterIds, hcase id, h]
+  | .suite k cs => by
+      rcases hsuite k cs with h | h <;> simp [filterI, filterIds, h, hfin, filterIL_sem s S hfin hcase hsuite cs]
+theorem filterIL_sem (s : FilterSrc) (S : Nat → Bool) (hfin : s.finalReturnsSame = true)
+    (hcase : ∀ id, chooseAct s.cases (.case id) = some (.keepIfIdIn true))
+    (hsuite : ∀ k cs, chooseAct s.cases (.suite k cs) = some .delegate ∨ chooseAct s.cases (.suite k cs) = some .filterChildrenInPlace) :
+    ∀ ts : List T, filterIL s S ts = filterL S ts
+  | [] => by simp [filterIL, filterL]
+  | t :: ts => by simp [filterIL, filterL, filterI_sem s S hfin hcase hsuite t, filterIL_sem s S hfin hcase hsuite ts]
+end
+
 theorem refFlatten_non : refFlatten.nonIterable = .single := rfl
 theorem refFlatten_test : refFlatten.unpackTest = .plainTypeOrOuter := rfl
 theorem refFlatten_body : refFlatten.unpackBody = .extendRecursive := rfl
